@@ -106,7 +106,8 @@ func (r *Run) handle(f *Family, res Result, col *Collector) {
 		if len(tail) > 600 {
 			tail = tail[:600]
 		}
-		r.Fail(Candidate{Family: f.Name, Class: class, Sig: sig, Case: json.RawMessage(jsonOrString(res.Req)), Detail: res.Crash + " of the library: " + tail})
+		r.Fail(Candidate{Family: f.Name, Class: class, Sig: sig, Case: json.RawMessage(jsonOrString(res.Req)), Detail: res.Crash + " of the library: " + tail,
+			Binary: PoolBinary, Env: PoolEnv})
 		return
 	}
 	var v Verdict
@@ -354,15 +355,25 @@ func Reproduce(c Candidate) (bool, string) {
 		}
 	}
 	var got *Result
-	p := NewPool(c.Family, 1, func(res Result) { got = &res })
-	p.Timeout = 60 * time.Second
-	p.Submit([]byte(req))
-	p.Close()
+	// a data race shows up with some probability per run: the race-detector build is tried several times
+	tries := 1
+	if strings.Contains(c.Sig, "data-race") {
+		tries = 10
+	}
+	for t := 0; t < tries; t++ {
+		got = nil
+		PoolBinary, PoolEnv = c.Binary, c.Env
+		p := NewPool(c.Family, 1, func(res Result) { got = &res })
+		PoolBinary, PoolEnv = "", nil
+		p.Timeout = 60 * time.Second
+		p.Submit([]byte(req))
+		p.Close()
+		if got != nil && got.Crash != "" {
+			return true, got.Crash
+		}
+	}
 	if got == nil {
 		return false, "no result"
-	}
-	if got.Crash != "" {
-		return true, got.Crash
 	}
 	var v Verdict
 	json.Unmarshal(got.Resp, &v)
